@@ -24,7 +24,7 @@ func newOr(astNode schema.ASTNode) *Or {
 	}
 
 	or := Or{
-		AnyOf:       newAnyOf(rule.Items, astNode.Value),
+		AnyOf:       newAnyOf(rule.Items, astNode),
 		Example:     ex,
 		Nullable:    newNullable(astNode),
 		Description: newDescription(astNode),
@@ -33,11 +33,11 @@ func newOr(astNode schema.ASTNode) *Or {
 	return &or
 }
 
-func newAnyOf(rr []schema.RuleASTNode, example string) []Node {
+func newAnyOf(rr []schema.RuleASTNode, element schema.ASTNode) []Node {
 	nn := make([]Node, 0, len(rr))
 
 	for _, r := range rr {
-		mock := internal.OrItemToASTNode(r, example)
+		mock := internal.OrItemToASTNode(r, element)
 		node := newNode(mock)
 
 		if p, ok := node.(*Primitive); ok { // fix empty string Example. See JSight {or: [ {type: "integer"} ]}
